@@ -47,6 +47,13 @@ def check(c):
         sub = numpy.sort(rs.choice(len(Q), size=len(Q) // 3, replace=False))
         if not close(EST.output(est, method, Q[sub]), full[sub]):
             return dict(**{"class": "sub-batch"}, what="outputs of a sub-batch differ from the same rows inside the batch")
+        if c["op"] == "rows-unseen-buckets":
+            tail = numpy.arange(10, len(Q))       # the far-away rows: (mostly) buckets unseen at training time, alone in a batch
+            if not close(EST.output(est, method, Q[tail]), full[tail]):
+                return dict(**{"class": "sub-batch-unseen-only"}, what="the rows of unseen buckets alone give other outputs than inside the batch")
+            for a_, b_ in ((10, 12), (12, 15), (len(Q) - 3, len(Q))):
+                if not close(EST.output(est, method, Q[a_:b_]), full[a_:b_]):
+                    return dict(**{"class": "sub-batch-unseen-only"}, what="rows %d..%d alone give other outputs than inside the batch" % (a_, b_))
         for r in list(range(0, len(Q), 4)) + [len(Q) - 1]:
             one = EST.output(est, method, Q[r:r + 1])
             if not close(one[0], full[r]):
